@@ -101,6 +101,7 @@ def run(ctx) -> None:
     check_pair(ctx)
     check_bounds(ctx)
     check_members(ctx)
+    check_populate(ctx)
     check_clone(ctx)
 
 
@@ -689,6 +690,55 @@ def check_bounds(ctx) -> None:
 
 
 # ---------------------------------------------------------------------------------------- members
+def check_populate(ctx) -> None:
+    """_populate_solver is the function that (re)creates the solver side of reactions - also as the undo of a removal,
+    where the variables are re-added first and therefore already exist. Its bounds and coefficient passes must cover
+    every reaction it was given, not a filtered subset."""
+    fn = ctx.prog.func("cobra.core.model", "Model._populate_solver")
+    param = [p for p in fn.params if p != (fn.self_name or "self")][0]
+    loops = [n for n in walk_local(fn.node) if isinstance(n, ast.For)]
+    seen = {"bounds": None, "coefficients": None}
+    for lp in loops:
+        txt = " ".join(ast.unparse(lp).split())
+        kind = None
+        if "update_variable_bounds()" in txt:
+            kind = "bounds"
+        elif any(isinstance(x, ast.Assign) and "constraint_terms[" in norm(x.targets[0]) for x in ast.walk(lp)):
+            kind = "coefficients"
+        if kind is None or seen[kind] is not None:
+            continue
+        it = lp.iter
+        whole = isinstance(it, ast.Name) and it.id == param
+        if not whole and isinstance(it, ast.Name):
+            defs = [n for n in walk_local(fn.node) if isinstance(n, ast.Assign) and len(n.targets) == 1 and isinstance(n.targets[0], ast.Name) and n.targets[0].id == it.id]
+            whole = len(defs) == 1 and norm(defs[0].value) in (f"list({param})", f"tuple({param})", f"{param}[:]", param) and not any(
+                isinstance(c, ast.Call) and isinstance(c.func, ast.Attribute) and isinstance(c.func.value, ast.Name) and c.func.value.id == it.id and c.func.attr in ("remove", "pop", "append") for c in walk_local(fn.node))
+        skipping = [n for n in ast.walk(lp) if isinstance(n, ast.Continue)]
+        seen[kind] = lp
+        if whole and not skipping:
+            ctx.ok("C01.sync", fn, lp, f"the {kind} pass covers every reaction of `{param}`")
+        else:
+            ctx.bad("C01.sync", fn, lp, f"the {kind} pass of _populate_solver runs over `{norm(it)}`, not over every reaction it was given: when it re-creates a removed reaction on context exit the variables already exist (they are re-added first), so that reaction's {kind} are never written to the solver - the model reports one thing, the solver holds another")
+    for kind, lp in seen.items():
+        if lp is None:
+            ctx.bad("C01.sync", fn, fn.node, f"_populate_solver has no {kind} pass over its reactions")
+
+
+def _solver_kinds(ctx, fn: FuncInfo, arg: ast.AST) -> Set[str]:
+    """{'OVar', 'OCons'} members an expression handed to add/remove_cons_vars consists of (empty = unknown)."""
+    kinds: Set[str] = set()
+    exprs = list(arg.elts) if isinstance(arg, (ast.List, ast.Tuple)) else [arg]
+    for e in exprs:
+        for t in ctx.inf.type_of(fn, e) or []:
+            if t[0] == "opt" and t[1] in ("OVar", "OCons"):
+                kinds.add(t[1])
+        if isinstance(e, ast.Name):
+            for t in ctx.inf.iter_elem_types(fn, e) or []:
+                if t[0] == "opt" and t[1] in ("OVar", "OCons"):
+                    kinds.add(t[1])
+    return kinds
+
+
 def check_members(ctx) -> None:
     prog, eff = ctx.prog, ctx.eff
     for fn in sorted(prog.all_funcs(), key=lambda f: f.qualname):
@@ -704,11 +754,17 @@ def check_members(ctx) -> None:
             if not any(r == SELF or r[0] in ("param", "global", "selfattr") for r in m.roots):
                 continue
             want = "add" if m.op == "add" else "remove"
+            need_kind = "OVar" if m.cell == "Model.reactions" else "OCons"
             nodes: Set[Node] = set()
             for e in eff.own_effects(fn):
                 if e.kind == "CALL":
                     callee = e.chain[0][0]
                     if any(x.cell == "solver.members" and x.op == want for x in eff.summary(callee)):
+                        # add_cons_vars / remove_cons_vars with an explicit list: what kind of solver object is it?
+                        if callee.short in ("Model.add_cons_vars", "Model.remove_cons_vars", "add_cons_vars_to_problem", "remove_cons_vars_from_problem") and isinstance(e.node, ast.Call) and e.node.args:
+                            kinds = _solver_kinds(ctx, fn, e.node.args[-1] if callee.short.endswith("_problem") and len(e.node.args) > 1 else e.node.args[0])
+                            if kinds and need_kind not in kinds:
+                                continue
                         nodes |= {n for n in g.node_containing(e.node) if n.kind != "with_exit"}
                 elif e.kind == "RAW" and e.cell == "solver.members" and e.op == want:
                     nodes |= {n for n in g.node_containing(e.node) if n.kind != "with_exit"}
